@@ -171,7 +171,7 @@ def run(R, tier):
                           'references); up to 3 cells of each graph as entry point plus the whole-workbook translation; non-trivial = entry '
                           'translation of a graph with a shared dependency; distinct by workbook+entry')
     C.proof_obligations(R, 'theories/Props/C03.v', 'Props.C03', TARGETS)
-    if any('build failed' in b for b in R.broken):
+    if any('Coq build failed' in b for b in R.broken):
         return
     n = 300 if tier == 'quick' else 4000
     recipes = corpus() + gen_recipes(R.rng, n)
